@@ -240,6 +240,25 @@ def whiten (spec : Array α) (shape : List Nat) (sirf : Bool) : Arr α :=
   radialMask o (fourierShape shape sirf) true false
     (fun r => interp1 o spec (o.mul r (o.ofNat (spec.size - 1))))
 
+/-! ### which axes of the whitening mask are un-shifted when `data_rfft` carries a batch axis
+
+`nd` is the rank of `data_rfft`, `batch` its batch axis (if any).  The mask never has a batch axis
+(`bins` is built from the shape without it), so its rank is `nd` or `nd - 1`. -/
+
+/-- rank of the whitening mask -/
+def maskRank (nd : Nat) (batch : Option Nat) : Nat :=
+  match batch with
+  | none => nd
+  | some _ => nd - 1
+
+/-- `axes=tuple(range(filter_mask.ndim - 1))`: the repaired code -/
+def whitenShiftAxes (nd : Nat) (batch : Option Nat) : List Nat := List.range (maskRank nd batch - 1)
+
+/-- `axes=tuple(i for i in range(data_rfft.ndim - 1) if i != batch_dimension)`: the code before the repair
+(axes of the batched input, applied to the mask) -/
+def whitenShiftAxesOld (nd : Nat) (batch : Option Nat) : List Nat :=
+  (List.range (nd - 1)).filter (fun i => decide (some i ≠ batch))
+
 /-! ## continuous wedge -/
 
 /-- `start <= ratio  or  stop >= ratio`, `ratio = big` where the opening-axis index is 0 -/
